@@ -27,6 +27,11 @@ class Sentinel(list):
         return '<earlier items>'
 
 
+def dsl_symbolic():
+    from pyvc import dsl
+    return bool(dsl._SYMBOLIC[0])
+
+
 def defined_rt(b):
     return Or(b == 0xF8, b == 0xFA, b == 0xFB, b == 0xFC, b == 0xFE, b == 0xFF)
 
@@ -352,6 +357,10 @@ def message_clauses(m, prefix):
     import mido.messages.messages as M
     from .c_state import valid_state
     out = {prefix + 'is-Message': cls_of(m) is M.Message}
+    if z3 is not None and dsl_symbolic():
+        # a queued object that was not built during this call existed before it (module-level table, cache): every parser
+        # would hand out the same mutable object, and stamping one received message would change all later ones
+        out[prefix + 'is-a-new-object (not shared with other calls)'] = isinstance(m, Obj)
     if cls_of(m) is not M.Message:
         return out, None
     a = attrs_of(m)
@@ -898,6 +907,16 @@ class ResyncSysex(Contract):
 
 
 # ====================================================================== C04: the whole-stream clauses as a loop invariant of the real feed
+def _fold_tokens(g, toks):
+    """ghost bookkeeping: a real-time token goes to rts, any other token to flat"""
+    for tk in toks:
+        tok = V(tk)
+        if not is_z(tok):
+            tok = zseq(list(tok)) if len(tok) else z3.Empty(IntSeq)
+        isrt = z3.And(z3.Length(tok) > 0, tok[0] >= 0xF8)
+        g['flat'], g['rts'] = z3.If(isrt, g['flat'], z3.Concat(g['flat'], tok)), z3.If(isrt, z3.Concat(g['rts'], tok), g['rts'])
+
+
 class _StreamLoop(_FeedLoop):
     """Tokenizer.feed over ANY byte string, with ghost state  flat = bytes of the non-real-time tokens emitted so far
     (preceded by F0, those emitted before the call)  and  rts = bytes of the real-time tokens emitted in this call.
@@ -913,7 +932,8 @@ class _StreamLoop(_FeedLoop):
     def enter(self, ip, fr, seqv):
         st = _FeedLoop.enter(self, ip, fr, seqv)
         h = ip.ctx.h
-        ip.ctx.__dict__['ghost_stream'] = {'flat': h.F0, 'rts': z3.Empty(IntSeq)}
+        g = ip.ctx.__dict__['ghost_stream'] = {'flat': h.F0, 'rts': z3.Empty(IntSeq)}
+        _fold_tokens(g, new_tokens(st.tok.attrs) or [])        # tokens queued by feed itself before the loop
         return st
 
     def havoc(self, ip, fr, st):
@@ -996,14 +1016,14 @@ class TokFeedStream(Contract):
     real-time tokens emitted by the call are exactly the defined real-time bytes of data, in order."""
     key = 'C04.stream-invariants'
     target = 'mido.tokenizer:Tokenizer.feed'
-    properties = ('C04',)
-    configs = tuple({'mode': m} for m in MODES)
+    properties = ('C04', 'C05')
+    configs = tuple({'mode': m, 'seq': sq} for m in MODES for sq in ('list', 'bytes', 'bytearray', 'tuple'))
     loops = {('mido.tokenizer:Tokenizer.feed', 0): _StreamLoop()}
     raises = {}
 
     def inputs(self, h, cfg):
         t = tok_obj(h, cfg['mode'])
-        h.data = h.int_seq('data', list, lo=0, hi=255, mutable=False)
+        h.data = h.int_seq('data', {'list': list, 'bytes': bytes, 'bytearray': bytearray, 'tuple': tuple}[cfg['seq']], lo=0, hi=255, mutable=False)
         if h.sym:
             from .l_parser import Sublist
             h.F0 = z3.Const('ghost_F0', IntSeq)
@@ -1022,9 +1042,10 @@ class TokFeedStream(Contract):
         if h.sym:
             from .l_parser import Sublist
             g = h.ctx.__dict__.get('ghost_stream')
-            if g is None:                # the loop was not cut (cannot happen for a symbolic length): nothing proved
-                out['loop-was-cut'] = False
-                return out
+            if g is None:                # a path that returns without reaching the loop: nothing consumed, nothing emitted so far
+                g = {'flat': h.F0, 'rts': z3.Empty(IntSeq)}
+            g = dict(g)
+            _fold_tokens(g, toks)        # tokens queued after the loop (or by a path without the loop) by feed itself
             d = V(h.data)
             cur = cur_of(attrs)
             if not is_z(cur):
@@ -1094,6 +1115,7 @@ class TokFeedCallSequence(Contract):
     key = 'C05.feed-is-a-fold-of-feed_byte'
     target = 'mido.tokenizer:Tokenizer.feed'
     properties = ('C05', 'C06')      # C06: hypothesis `run` of lean/StreamInduction.lean
+    configs = tuple({'mode': m, 'seq': sq} for m in ('idle', 'fixed', 'sysex') for sq in ('list', 'bytes', 'bytearray', 'tuple'))
     loops = {('mido.tokenizer:Tokenizer.feed', 0): _CallSeqLoop()}
     raises = {}
     symbolic_only = True
@@ -1102,8 +1124,8 @@ class TokFeedCallSequence(Contract):
         return {raw_function('mido.tokenizer:Tokenizer.feed_byte'): _Recorder()}
 
     def inputs(self, h, cfg):
-        t = tok_obj(h, 'idle')
-        h.data = h.int_seq('data', list, mutable=False)
+        t = tok_obj(h, cfg['mode'])
+        h.data = h.int_seq('data', {'list': list, 'bytes': bytes, 'bytearray': bytearray, 'tuple': tuple}[cfg['seq']], lo=0, hi=255, mutable=False)
         return [t, h.data], {}
 
     def ensures(self, h, cfg, a, r):
